@@ -211,4 +211,130 @@ theorem readAll_flat (k : Nat) (s : Src) : readAll k s = parseAll k s.flat s.tai
     | fail e => simp [h2, h3]
     | frame f => simp [ih, h2, h3, h4]
 
+/-! ### the decoder property on flat input -/
+
+theorem parse_fail_stop (bs : Bytes) (tl : Tail) (e : FErr) (h : (parseFrame bs tl).1 = .fail e) :
+    e = stopFor bs tl ∧ (parseFrame bs tl).2.2 ≤ crossnode.FrameHeaderSize + crossnode.MaxFrameSize := by
+  unfold parseFrame at h ⊢
+  unfold stopFor
+  by_cases h1 : bs.length < crossnode.FrameHeaderSize
+  · simp only [h1, if_true] at h ⊢
+    simp only [FOut.fail.injEq] at h
+    exact ⟨h.symm, Nat.le_add_right _ _⟩
+  · simp only [h1, if_false] at h ⊢
+    by_cases h2 : unbe32 ((bs.take crossnode.FrameHeaderSize).drop (idLen + 1)) > crossnode.MaxFrameSize
+    · simp only [h2, if_true] at h ⊢
+      simp only [FOut.fail.injEq] at h
+      exact ⟨h.symm, Nat.le_add_right _ _⟩
+    · simp only [h2, if_false] at h ⊢
+      by_cases h3 : (bs.drop crossnode.FrameHeaderSize).length <
+          unbe32 ((bs.take crossnode.FrameHeaderSize).drop (idLen + 1))
+      · simp only [h3, if_true] at h ⊢
+        simp only [FOut.fail.injEq] at h
+        exact ⟨h.symm, Nat.add_le_add_left (Nat.le_of_not_lt h2) _⟩
+      · simp only [h3, if_false] at h
+        simp at h
+
+theorem holdsDec_nil (bs : Bytes) (tl : Tail) (a l : Nat)
+    (ha : a ≤ crossnode.FrameHeaderSize + crossnode.MaxFrameSize) :
+    holdsDec bs tl ⟨[], stopFor bs tl, l, a⟩ = true := by
+  have h1 : ([] : Bytes).isPrefixOf bs = true := by cases bs <;> rfl
+  simp only [holdsDec, encodeAll, List.map_nil, List.flatten_nil, List.all_nil, h1, List.length_nil,
+    List.drop_zero, beq_self_eq_true, Bool.true_and, decide_eq_true_eq]
+  simp only [allocSlack]
+  exact Nat.le_trans ha (Nat.le_add_right _ _)
+
+theorem holdsDec_cons (f : Frame) (hwf : f.WF) (rest : Bytes) (tl : Tail) (o : DecObs) (a : Nat)
+    (ha : a ≤ crossnode.FrameHeaderSize + crossnode.MaxFrameSize)
+    (h : holdsDec rest tl o = true) :
+    holdsDec (encode f ++ rest) tl ⟨f :: o.frames, o.stop, o.leftover, max a o.alloc⟩ = true := by
+  simp only [holdsDec, Bool.and_eq_true, decide_eq_true_eq, List.all_eq_true, beq_iff_eq] at h ⊢
+  obtain ⟨⟨⟨h1, h2⟩, h3⟩, h4⟩ := h
+  refine ⟨⟨⟨?_, ?_⟩, ?_⟩, ?_⟩
+  · intro x hx
+    rcases List.mem_cons.mp hx with hx | hx
+    · subst hx; exact hwf
+    · exact h1 x hx
+  · rw [encodeAll_cons, List.isPrefixOf_iff_prefix, List.prefix_append_right_inj,
+      ← List.isPrefixOf_iff_prefix]
+    exact h2
+  · rw [encodeAll_cons, List.length_append, ← List.drop_drop, List.drop_left']
+    · exact h3
+    · rfl
+  · simp only [allocSlack] at h4 ⊢
+    exact Nat.max_le.mpr ⟨Nat.le_trans ha (Nat.le_add_right _ _), h4⟩
+
+/-- Every byte string, with enough fuel: the flat decoder's observation satisfies the property. -/
+theorem parseAll_holds (k : Nat) (bs : Bytes) (tl : Tail) (hk : bs.length < k) :
+    holdsDec bs tl (parseAll k bs tl) = true := by
+  induction k generalizing bs with
+  | zero => omega
+  | succ k ih =>
+    unfold parseAll
+    simp only
+    cases hp : (parseFrame bs tl).1 with
+    | fail e =>
+      obtain ⟨he, ha⟩ := parse_fail_stop bs tl e hp
+      simp only
+      rw [he]
+      exact holdsDec_nil bs tl _ _ ha
+    | frame f =>
+      have hfull : parseFrame bs tl = (.frame f, (parseFrame bs tl).2.1, (parseFrame bs tl).2.2) := by
+        rw [← hp]
+      obtain ⟨hbs, hwf, ha⟩ := parse_frame_inv bs tl f _ _ hfull
+      have hrl : (parseFrame bs tl).2.1.length < k := by
+        have hl := congrArg List.length hbs
+        rw [List.length_append] at hl
+        have := encode_length_ge f
+        omega
+      have hrec := ih (parseFrame bs tl).2.1 hrl
+      have hal : (parseFrame bs tl).2.2 ≤ crossnode.FrameHeaderSize + crossnode.MaxFrameSize := by
+        rw [ha]; exact Nat.add_le_add_left hwf.2.2 _
+      simp only
+      have := holdsDec_cons f hwf _ tl _ _ hal hrec
+      rw [← hbs] at this
+      exact this
+
+/-! ### round trip of frame sequences -/
+
+theorem parseAll_encodeAll (fs : List Frame) (hwf : ∀ f ∈ fs, f.WF) (tl : Tail) (k : Nat) (hk : fs.length < k) :
+    (parseAll k (encodeAll fs) tl).frames = fs ∧
+    (parseAll k (encodeAll fs) tl).stop = (if tl == .eof then .eof else .header tl) ∧
+    (parseAll k (encodeAll fs) tl).leftover = 0 ∧
+    (parseAll k (encodeAll fs) tl).alloc ≤ crossnode.FrameHeaderSize + crossnode.MaxFrameSize := by
+  induction fs generalizing k with
+  | nil =>
+    cases k with
+    | zero => omega
+    | succ k =>
+      have : parseFrame [] tl = (.fail (if tl == .eof then .eof else .header tl), [], crossnode.FrameHeaderSize) := by
+        simp [parseFrame, crossnode.FrameHeaderSize]
+      simp [encodeAll, parseAll, this]
+  | cons f fs ih =>
+    cases k with
+    | zero => omega
+    | succ k =>
+      have hf := hwf f (List.mem_cons_self ..)
+      have hfs : ∀ g ∈ fs, g.WF := fun g hg => hwf g (List.mem_cons_of_mem _ hg)
+      have hk' : fs.length < k := by simp at hk; omega
+      obtain ⟨i1, i2, i3, i4⟩ := ih hfs k hk'
+      rw [encodeAll_cons]
+      unfold parseAll
+      simp only [parse_encode f hf (encodeAll fs) tl]
+      refine ⟨by rw [i1], i2, i3, ?_⟩
+      have := hf.2.2
+      omega
+
+theorem writeAll_spec (fs : List Frame) :
+    (writeAll fs).1 = fs.map (fun f => decide (f.data.length ≤ crossnode.MaxFrameSize)) ∧
+    (writeAll fs).2 = encodeAll (fs.filter (fun f => decide (f.data.length ≤ crossnode.MaxFrameSize))) := by
+  induction fs with
+  | nil => simp [writeAll, encodeAll]
+  | cons f fs ih =>
+    by_cases h : f.data.length ≤ crossnode.MaxFrameSize
+    · have h' : ¬ f.data.length > crossnode.MaxFrameSize := Nat.not_lt.mpr h
+      simp [writeAll, writeFrame, h, h', ih.1, ih.2, encodeAll]
+    · have h' : f.data.length > crossnode.MaxFrameSize := Nat.lt_of_not_le h
+      simp [writeAll, writeFrame, h, h', ih.1, ih.2]
+
 end Tunnox.C10
